@@ -91,7 +91,13 @@ def build(proto):
     spelling = {'json': {'_evmgr': method_mgr}, 'xml': {'_event_manager': method_mgr}, 'soap11': {'_event_managers': [method_mgr]},
                 'http-json': {'_evmgrs': [method_mgr]}}.get(proto, {'_evmgr': method_mgr})
 
-    class Svc(BaseSvc):          # inherits the service-level listeners
+    class AuditSvc(Service):     # a second base with listeners of its own for the same events
+        pass
+
+    for ev in METHOD_EVENTS:
+        AuditSvc.event_manager.add_listener(ev, _listener('svcB', ev))
+
+    class Svc(BaseSvc, AuditSvc):          # inherits the service-level listeners of both bases
         @rpc(Integer, Unicode, _returns=Integer, **spelling)
         def work(ctx, a, s):
             return _work(ctx, a, s)
